@@ -9,7 +9,7 @@ from proto import ET, arr_close, dec_natlist, dec_tens, natlist, run_driver
 from geolib import call_impl
 
 ID = "C05"
-LEAN_FILES = ["Geo/Props/C05.lean", "Geo/Props/C05b.lean"]
+LEAN_FILES = ["Geo/Props/C05.lean", "Geo/Props/C05b.lean", "Geo/Props/C05c.lean"]
 RULE = ("random diagrams: 1-5 node objects, rank 0-3, dims 2-3, 0-2 leading free axes, random variance patterns, "
         "edges between random (also identical / repeated) node objects, occasional add_node and invalid edges; "
         "Tensor.__mul__/__rmul__/__pow__/tensor_product; LeviCivitaTensor(n) n<=5 and KroneckerDelta(n,p) entry by entry, "
